@@ -141,8 +141,10 @@ def run(ctx):
     ctx.trusted_base = common.COMMON_TRUSTED + [
         "two model runs per request: Model/Setup.v fed with the decisions of the real resolver (one per forward call of "
         "Eups.setup, captured by a spy), and the composed model Model/SetupFull.v (setup + the resolver of C03, "
-        "alreadySetupProducts, per-line VRO with keep) fed with NO decisions; compared: success, environment, aliases, "
-        "decisions",
+        "alreadySetupProducts, per-line VRO with keep) fed with NO decisions - with the dotted-numeric comparator on "
+        "worlds with the version names 1.0 2.0 3.0, and with the comparator and matcher of C10 "
+        "(coq/Model/ResolveReal.v, real-comparator-comparisons) on every world, those of gen_world_versions included; "
+        "compared: success, environment, aliases, decisions",
         "table files enter the model as the actions the real parser derives from them (C11 models the parser)"]
     ctx.assumptions = ["one stack, one flavor, declared products only (no setup -r, no --force)",
                        "keep_retains: WF2, Eups.keep set and keep at the head of the VRO (what --keep does), a non-empty "
@@ -155,6 +157,12 @@ def run(ctx):
         ctx.sample({"requests": s["requests"], "env0": s["env0"], "products": s["world"]["products"]})
     for i in range(0, len(scenarios), 400):
         S.run_scenarios(ctx, scenarios[i:i + 400], oracle)
+    # --keep / --just / --max-depth / unsetup on worlds with version names of C10's grammar: the composed model with the
+    # real comparator (coq/Model/ResolveReal.v) decides every version
+    versions = [s for s in S.directed_version_scenarios() if len(s["requests"]) == 3] + \
+               [S.gen_scenario_versions(ctx.rng, "options") for _ in range(ctx.size(100, 1200))]
+    for i in range(0, len(versions), 400):
+        S.run_scenarios(ctx, versions[i:i + 400], oracle)
 
 
 def replay(ctx, path):
